@@ -280,12 +280,14 @@ contract(
             "translations": CATALOG, "count": Union(Int, NoneT), "message_context": Opt(Str)},
     opaque_methods=CATALOG_HOOKS,
     post=[
-        "ghost('lookups') == 1",
-        "ghost_str('msgid') == self.singular_block.text",
+        # an empty message is not a message (extraction reports none): no catalog lookup - the catalog answers '' with its header
+        "implies(len(self.singular_block.text) == 0, ghost('lookups') == 0 and result == '')",
+        "implies(len(self.singular_block.text) > 0, ghost('lookups') == 1)",
+        "implies(len(self.singular_block.text) > 0, ghost_str('msgid') == self.singular_block.text)",
         # a plural block and a count (0 included) -> the plural forms, with the count passed on
-        "ghost('family') == run_family_code(self.plural_block is not None, count is not None, message_context is not None and len(message_context) > 0)",
-        "implies(self.plural_block is not None and count is not None, ghost_str('plural_id') == self.plural_block.text and ghost('n') == count)",
-        "implies(message_context is not None and len(message_context) > 0, ghost_str('ctx_id') == message_context)",
+        "implies(len(self.singular_block.text) > 0, ghost('family') == run_family_code(self.plural_block is not None, count is not None, message_context is not None and len(message_context) > 0))",
+        "implies(len(self.singular_block.text) > 0 and self.plural_block is not None and count is not None, ghost_str('plural_id') == self.plural_block.text and ghost('n') == count)",
+        "implies(len(self.singular_block.text) > 0 and message_context is not None and len(message_context) > 0, ghost_str('ctx_id') == message_context)",
     ],
     raises={},
 )
